@@ -47,6 +47,11 @@ type C20Tag struct {
 	ID   uint `gorm:"primaryKey"`
 	Name string
 }
+// embedded struct that carries constraints of its own (column names get the embeddedPrefix: DBName != field name)
+type C20Stamp struct {
+	Serial string `gorm:"unique"`
+	Batch  int    `gorm:"index"`
+}
 type C20Audit struct {
 	CreatedBy string
 	Note      string `gorm:"size:30"`
@@ -85,7 +90,7 @@ var c20Kinds = map[string]reflect.Type{
 	"nullstr": reflect.TypeOf(sql.NullString{}), "nullint": reflect.TypeOf(sql.NullInt64{}),
 	"owner": reflect.TypeOf(C20Owner{}), "powner": reflect.TypeOf((*C20Owner)(nil)), "org": reflect.TypeOf(C20Org{}),
 	"toys": reflect.TypeOf([]C20Toy(nil)), "badge": reflect.TypeOf(C20Badge{}), "tags": reflect.TypeOf([]C20Tag(nil)),
-	"audit": reflect.TypeOf(C20Audit{}),
+	"audit": reflect.TypeOf(C20Audit{}), "stamp": reflect.TypeOf(C20Stamp{}),
 }
 
 func c20IsRel(kind string) bool {
@@ -273,6 +278,8 @@ func c20Value(f c20Field, row int, fi int) (reflect.Value, bool) {
 		return reflect.ValueOf(sql.NullString{String: fmt.Sprintf("n%d_%d", row, fi), Valid: true}), true
 	case "nullint":
 		return reflect.ValueOf(sql.NullInt64{Int64: int64(n), Valid: true}), true
+	case "stamp":
+		return reflect.ValueOf(C20Stamp{Serial: fmt.Sprintf("ser%d_%d", row, fi), Batch: n}), true
 	case "audit":
 		return reflect.ValueOf(C20Audit{CreatedBy: fmt.Sprintf("u%d", row), Note: fmt.Sprintf("note%d_%d", row, fi)}), true
 	}
@@ -457,7 +464,7 @@ func c20RunHistory(sp c20Spec) (out c20Outcome) {
 		if c20IsRel(f.Kind) {
 			continue
 		}
-		if fd := st2.Schema.LookUpField(f.Name); fd == nil && f.Kind != "audit" {
+		if fd := st2.Schema.LookUpField(f.Name); fd == nil && f.Kind != "audit" && f.Kind != "stamp" {
 			continue
 		} else if fd != nil && (!fd.Readable || !fd.Creatable) {
 			continue
